@@ -102,7 +102,7 @@ Mutations == {"trunc", "total", "datasz", "count", "flen", "dropfield", "shortid
 Applicable(s, m) ==
   CASE s = "scan"     -> m = "garbage"   \* a scan of the transfer port with unknown reference numbers, next to busy downloaders
     [] s = "prelogin" -> m \in {"trunc", "total", "datasz", "count", "flen", "garbage", "badhs", "dropfield"}
-    [] s \in {"ctl", "adm"} -> m \in Mutations \ {"badhs", "size", "dup"}   \* adm: the same session with every privilege, its kick aimed at an absent user
+    [] s \in {"ctl", "adm"} -> m \in Mutations \ {"badhs", "size", "dup"}   \* adm: the same session as an operator (all but account administration), its kick aimed at an absent user; sentinels cannot be disconnected
     [] OTHER          -> m \in {"trunc", "size", "count", "garbage", "badhs", "dup"}   \* dup: the preamble replayed on two connections
 Frames(s) == IF s = "scan" THEN 0..0 ELSE IF s \in {"ctl", "adm"} THEN 3..24 ELSE IF s = "prelogin" THEN 1..2 ELSE 0..9
 Plans == {p \in [sess : Sessions, frame : 0..24, mut : Mutations, val : 0..6] :
